@@ -263,8 +263,9 @@ def run_case(case, cnt=None, root=None):
             v = {"what": f"{case['kind']}: structured form gives {meta.describe(ol)}, written-out form gives {meta.describe(orr)}{detail}; "
                          f"structured source: {' | '.join(l.strip() for l in list(tl.values())[0].splitlines()[:14])}", "case": {k: v for k, v in case.items() if not k.endswith('preview')}}
             if meta.known_cycle(ol, tl) or meta.known_cycle(orr, tr):
-                v["known_key"] = "definitional-cycle"
-            out.append(v)
+                cnt["excluded_known_cycle"] = cnt.get("excluded_known_cycle", 0) + 1     # listed C08 finding, not judged here
+            else:
+                out.append(v)
         return (out, differs) if not own else out
     finally:
         if own:
